@@ -33,6 +33,10 @@ class Sim:
         self.cleared = False
         self.nsteps = 0
         self.verify("init")
+        if init.get("script"):
+            # set every site (in the drawn order) and read the whole distribution: each partial phosphorylation is one of its states
+            self.apply("set", {"kind": "list", "vals": list(init["script"])})
+            self.apply("dist", None)
 
     def case(self):
         return None     # the driver attaches the history
@@ -172,7 +176,13 @@ def inits(draw):
                 out.append(draw(st.sampled_from("EDSTY" + "STY")))
             else:
                 out.append(draw(st.sampled_from("GAQ")))
-        return {"seq": "".join(out)}
+        seq = "".join(out)
+        sites = [i + 1 for i, r in enumerate(seq) if r in ref.STY]
+        lst = list(seq)
+        for p in sites[4:]:
+            lst[p - 1] = "E"                      # at most four phosphosites, so that the full distribution stays cheap
+        seq = "".join(lst)
+        return {"seq": seq, "script": draw(st.permutations([p for p in sites[:4]]))}
     if cls == "long-sty":
         return {"seq": draw(gens.exact_words("STY" * 5 + "KEG", draw(st.integers(90, 140)))), "long": True}
     n = draw(st.integers(1, 24))
